@@ -253,6 +253,22 @@ def judge_history(col, world, reads, base, other, bw, ow, case):
             if v > 0:
                 vols.append(v)
             mols += [x for n, x in b.items() if x > 0 and not world.ref.subs[n].enzyme]
+    # ... and the aliquots that create_solution(_from) draws from its stock / solvent containers, which never show as a
+    # vessel of their own (0.0095 uL of a dense stock is 95 grains of 1e-10 L): input minus what is left of it
+    for e in world.pool:
+        if e.kind != 'c' or not isinstance(e.origin, int) or e.origin >= len(world.history):
+            continue
+        hop = world.history[e.origin]
+        if hop['op'] not in ('create_solution', 'create_solution_from'):
+            continue
+        inputs = [hop.get('src')] if hop['op'] == 'create_solution_from' else []
+        if isinstance(hop.get('solvent'), dict) and 'c' in hop['solvent']:
+            inputs.append(hop['solvent']['c'])
+        for i_ in inputs:
+            if isinstance(i_, int) and i_ < len(world.pool) and world.pool[i_].view.get('name') == e.view.get('name'):
+                dv = abs(world.ref.size(world.base(world.pool[i_].view), 'L') - world.ref.size(world.base(e.view), 'L'))
+                if dv > 0:
+                    vols.append(dv)
     min_vol = max(min(vols) if vols else 1e-5, 1e-9)
     min_mol = max(min(mols) if mols else 1e-7, 1e-12)
     enz = [x for e in world.pool if e.kind in ('c', 'p') for _, w in programs.wells_of(e.view)
